@@ -1097,3 +1097,123 @@ func c18CanonOf(s *storage.JSONFileStorage) string {
 	out, _ := c18Canon(s)
 	return out
 }
+
+// TestC18ConcurrentUpdates: two handlers of the router update the stored record
+// of one router at the same moment (an announcement brings its public info while
+// a disconnect ping marks it offline, or two announcements follow each other
+// closely); one of them is held at a generated storage call. Whatever the
+// order, public info that was stored is in the state afterwards - in memory and
+// after Stop and a restart. (The offline flag has no fixed outcome: storing
+// public info clears it.)
+func TestC18ConcurrentUpdates(t *testing.T) {
+	core.Run(t, core.Opts{ID: "C18", Quick: 150, Thorough: 5000}, func(c *core.Case) {
+		dir, err := os.MkdirTemp(c18Scratch(), "c18cu-")
+		if err != nil {
+			c.Fatalf("tempdir: %v", err)
+		}
+		defer os.RemoveAll(dir)
+		path := filepath.Join(dir, "state.json")
+		s, err := c18Open(path)
+		if err != nil {
+			c.Fatalf("new storage: %v", err)
+		}
+		gate := &vnet.Gate{}
+		party := vnet.NewParty(ids.Get(1))
+		st := state.New(party, &vnet.GateStorage{Storage: s, G: gate})
+		pool := ids.Routable()
+		x := pool[c.Pick("router", len(pool))]
+		pa := x.Addr.PublicAddress
+		if err := st.AddRouter(&pa); err != nil {
+			c.Fatalf("AddRouter: %v", err)
+		}
+		mkInfo := func(label string) *m.RouterInfo {
+			return &m.RouterInfo{Version: c18Str(c, label+".v"), Listeners: []string{c18Str(c, label+".l")}}
+		}
+		infoA, infoB := mkInfo("infoA"), mkInfo("infoB")
+		if c.Bool("has-info-before") {
+			if err := st.AddPublicRouterInfo(x.Addr.IP, mkInfo("info0")); err != nil {
+				c.Fatalf("AddPublicRouterInfo: %v", err)
+			}
+		}
+		type op struct {
+			name string
+			run  func() error
+		}
+		addA := op{"public info A stored", func() error { return st.AddPublicRouterInfo(x.Addr.IP, infoA) }}
+		addB := op{"public info B stored", func() error { return st.AddPublicRouterInfo(x.Addr.IP, infoB) }}
+		off := op{"marked offline", func() error { return st.MarkRouterOffline(x.Addr.IP) }}
+		var first, second op
+		wantOneOf := []*m.RouterInfo{infoA}
+		switch c.Pick("ops", 3) {
+		case 0:
+			first, second = off, addA // the offline mark is held, the info is stored meanwhile
+		case 1:
+			first, second = addA, off
+		default:
+			first, second = addA, addB
+			wantOneOf = []*m.RouterInfo{infoA, infoB}
+		}
+		point := core.OneOf(c, "hold.at", "storage.SaveRouter", "storage.SaveRouter", "storage.GetRouter")
+		gate.ArmAt(point, 0)
+		errs := make(chan error, 2)
+		go func() { errs <- first.run() }()
+		held := false
+		for i := 0; i < 100 && !held; i++ {
+			held = gate.WaitReached(3 * time.Millisecond)
+		}
+		go func() { errs <- second.run() }()
+		var got []error
+		select {
+		case e := <-errs: // the second one finished (or blocks on a lock the held call keeps)
+			got = append(got, e)
+		case <-time.After(100 * time.Millisecond):
+		}
+		gate.Release()
+		for len(got) < 2 {
+			select {
+			case e := <-errs:
+				got = append(got, e)
+			case <-time.After(20 * time.Second):
+				c.Fatalf("two updates of one router's record (%s held at %s, then %s) did not finish", first.name, point, second.name)
+			}
+		}
+		for _, e := range got {
+			if e != nil {
+				c.Fatalf("update of a known router's record failed: %v", e)
+			}
+		}
+		matches := func(r *storage.StoredRouter) bool {
+			if r == nil || r.PublicInfo == nil {
+				return false
+			}
+			for _, w := range wantOneOf {
+				if r.PublicInfo.Version == w.Version && fmt.Sprint(r.PublicInfo.Listeners) == fmt.Sprint(w.Listeners) {
+					return true
+				}
+			}
+			return false
+		}
+		now, err := s.GetRouter(x.Addr.IP)
+		if err != nil || !matches(now) {
+			c.Fatalf("%s (held at %s) while %s: afterwards the router's record does not hold the public info that was stored (record: %+v, err %v)", first.name, point, second.name, now, err)
+		}
+		if err := s.Stop(); err != nil {
+			c.Fatalf("Stop failed: %v", err)
+		}
+		re, err := c18Open(path)
+		if err != nil {
+			c.Fatalf("restart failed: %v", err)
+		}
+		back, err := re.GetRouter(x.Addr.IP)
+		if err != nil || !matches(back) {
+			c.Fatalf("%s (held at %s) while %s: after Stop and a restart the router's record does not hold the public info that was stored (record: %+v, err %v)", first.name, point, second.name, back, err)
+		}
+		_ = re.Stop()
+		if held {
+			c.Class("concurrent-updates/" + first.name + "-held-at-" + point)
+		} else {
+			c.Class("concurrent-updates/not-held")
+		}
+		c.Eval(fmt.Sprintf("cu|%s|%s|%s|%v", first.name, second.name, point, held), held, nil)
+	})
+}
